@@ -301,7 +301,9 @@ def run(ctx):
         """Set of operation classes whose coordinate reaches the result, and whether the start point does."""
         inc = None
         start = False
-        for n_ in ast.walk(f.node):
+        from sa.inline import walk_expanded as _we
+
+        for n_, _owner in _we(prog, f, depth=2):
             if isinstance(n_, ast.Attribute) and n_.attr == "_start_" + axis and dotted(n_.value) == "self":
                 start = True
             gens = []
